@@ -68,6 +68,14 @@ type Out struct {
 	ErrSites   []ErrSite         `json:"errsites"`
 	Globals    []Global          `json:"globals"`
 	FieldFx    []*FxType         `json:"fieldfx"`
+	// C10 (metricsprog.go, accesses.go)
+	MetricsProgs  []*MProg            `json:"metrics_progs"`
+	MetricsFields map[string][]string `json:"metrics_fields"`
+	MetricsPublic map[string]map[string]string `json:"metrics_public"`
+	MetricsCallers []J `json:"metrics_callers"`
+	Accesses      []AccessSite        `json:"accesses"`
+	Cells         []CellInfo          `json:"cells"`
+	AccessNotes   []string            `json:"access_notes"`
 }
 
 func main() {
@@ -133,6 +141,9 @@ func main() {
 			}
 		}
 	}
+	metricsProgs(byPath, out)
+	recordCallers(pkgs, out)
+	accesses(prog, pkgs, out)
 
 	b, _ := json.MarshalIndent(out, "", " ")
 	if err := os.WriteFile(*outJSON, b, 0o644); err != nil {
